@@ -508,6 +508,15 @@ class Block:
                          for df in l.window.factors]
                 if not any(l.window.predicate(*args) for args in product(*argss)):
                     return True
+        # An excluded level of a derived factor that is not in `di` rules the combination out
+        # when every choice of levels for the argument factors outside `di` yields that level
+        # (which matches how excluded combinations are counted for the crossing size)
+        for f, el in self.exclude:
+            if isinstance(el, DerivedLevel) and not f.has_complex_window and f not in di:
+                argss = [([di[df].name] if df in di else [ll.name for ll in df.levels])
+                         for df in el.window.factors]
+                if all(el.window.predicate(*args) for args in product(*argss)):
+                    return True
         return False
 
     def build_backend_request(self) -> BackendRequest:
